@@ -2,6 +2,9 @@
 from vf.props.C13 import e2job
 
 ASSUMPTIONS = [
+    "E1 lemma on the writer: ComposeEdif._output_name_of_cable_wire_ (file object stubbed as a write recorder) emits the plain name "
+    "only for a one-wire non-array cable and otherwise exactly rename <id>_<i>_ \"<name>[<i>]\" with i = position + base index "
+    "(width 1..2, base index 0..7, symbolic array flag); with the naming kernels this keeps width, array-ness and base index",
     "kernel-level claim: the whole-file statement is decided through the mechanisms its anchors name, each on the real code; "
     "the recursive-descent/printing glue that merely orders constructs is outside the claim",
     "E2 (CrossHair/z3): what ComposeEdif._output_name_of_cable_wire_ writes for bit i (name[i] and id_i_) is split back by "
@@ -18,4 +21,8 @@ def jobs(tier, prop="C03"):
         out.append(e2job(prop, "c03", fn, tmo, tier))
     for fn in ("h_tokenizer_terminates_and_loses_nothing", "h_parentheses_are_separate_tokens"):
         out.append(e2job(prop, "c03", fn, tmo, tier, {"VF_L": 2 if q else 3}))
+    if prop == "C03":
+        for w in (1, 2):
+            out.append(dict(name="C03/cable_wire_name{width=%d}" % w, engine="E1/symheap", module="vf.e1.edif_jobs",
+                            func="cable_wire_name_job", timeout=900, args=dict(width=w, tier=tier)))
     return out
